@@ -24,6 +24,8 @@ try:
         for x in detail: print('    ', x[:300], flush=True)
 finally:
     subprocess.run(['git', '-C', '/repo', 'checkout', '--', '.'])
+    # the evidence files written while the change was applied are not evidence of the unchanged tree
+    subprocess.run(['git', '-C', '/verif', 'checkout', '--', 'evidence'])
 meta['checks_run'] = results
 meta['detected_by'] = sorted(p for p, v in results.items() if v['exit'] not in (0, 124))
 json.dump(meta, open(f"{d}/meta.json", 'w'), indent=1)
